@@ -334,6 +334,23 @@ def rand_key(rng, n, kinds=('int', 'sl', 'list', 'mask', 'all'), unique_list=Fal
         if n == 0:
             return ['list']
         ln = rng.randint(0, min(n, 5) if unique_list else 5)
+        if n >= 3 and rng.random() < 0.25:
+            # a run of consecutive positions in another order (what a label-list lookup often produces): code that
+            # recognises runs by their ends and length alone mistakes it for the ascending run
+            k = rng.randint(3, min(n, 5))
+            a = rng.randint(0, n - k)
+            run = list(range(a, a + k))
+            out = run
+            for _ in range(8):
+                if k >= 4 and rng.random() < 0.5:
+                    mid = run[1:-1]
+                    rng.shuffle(mid)
+                    out = [run[0]] + mid + [run[-1]]
+                else:
+                    out = rng.sample(run, k)
+                if out != run:
+                    break
+            return ['list'] + out
         if unique_list:
             ps = rng.sample(range(n), ln)
             return ['list'] + [p if rng.random() < 0.7 else p - n for p in ps]
